@@ -59,8 +59,11 @@ def gen_contract_asm(rng, nblocks_init=2, nblocks_run=4, block_kw=None, blocks=N
 
 def gen_combined(rng, ncontracts=2, **kw):
     doc = {"contracts": {}, "version": "0.8.17+commit.8df45f5f.Linux.g++"}
+    # sometimes names where one is a suffix of another (Math / SafeMath), as in the shipped examples
+    family = rng.choice([None, None, ["Math", "SafeMath", "Token"], ["ERC20", "BurnableERC20", "Ownable"]])
     for i in range(ncontracts):
-        doc["contracts"]["src/f%d.sol:C%d" % (i, i)] = {"asm": gen_contract_asm(rng, **kw)}
+        name = "src/f%d.sol:C%d" % (i, i) if not family else "src/%s.sol:%s" % (family[i % 3].lower(), family[i % 3])
+        doc["contracts"][name] = {"asm": gen_contract_asm(rng, **kw)}
     if rng.random() < 0.4:
         doc["contracts"]["src/iface.sol:I"] = {"asm": None}
     return doc
